@@ -21,7 +21,7 @@ func init() {
 		Run:     runC17,
 		Explanation: "Narrow structural claim for C17: (1) every registered generator configuration (the repository's own regression configs plus /verif probe overlays, " +
 			"regenerated from the current templates by the repository's own generator driver built from the snapshot) generates without error/panic and every emitted package " +
-			"type-checks with go/types against the current runtime packages; (2) the literal table consulted by sanitizeKeywords is a superset of go/token's keyword set. " +
+			"type-checks with go/types against the current runtime packages; (2) the literal table consulted by sanitizeKeywords is a superset of go/token's keyword set; (3) the model-name registry records every name it hands out in every map its collision test reads; (4) an import alias is stored only after the alias finder found nothing for that very alias. " +
 			"The generator run decides nothing about behaviour; the verdict is the static type-check of its output.",
 		NotDecided: "all other schemas and configs; collision-freedom of generated identifiers in general; generating from random schemas would be dynamic testing and is out of family",
 		Assumptions: []string{
@@ -80,6 +80,7 @@ func runC17(c *Ctx) {
 	}
 
 	c17Registry(c)
+	c17AliasUnique(c)
 
 	// --- keywords ----------------------------------------------------------------------------
 	c.R.Rule("keywords", "the literal table ranged over by templates.sanitizeKeywords contains every Go keyword (go/token)", 25)
@@ -221,4 +222,88 @@ func firstLines(s string, n int) string {
 		l = l[:n]
 	}
 	return strings.Join(l, " | ")
+}
+
+// c17AliasUnique: the import alias registry of codegen/templates hands out an alias only after it looked that very alias up
+// among the aliases already taken and found none.  Every store to Import.Alias (incl. the field of an Import literal that is
+// appended to Imports.imports) is edge-dominated by `finder(alias') == nil`, where finder is a function of the package that
+// returns a *Import and compares an import's Alias with its string argument, and alias' is the value being stored.
+func c17AliasUnique(c *Ctx) {
+	c.R.Rule("alias-unique", "in codegen/templates every store to Import.Alias is dominated by the edge on which the alias finder (returns an import only when its Alias equals the argument) found nothing for the very alias being stored", 2)
+	pkg := modPath("codegen/templates")
+	isFinder := func(fn *ssa.Function) bool {
+		if fn == nil || len(fn.Blocks) == 0 || fn.Pkg == nil || fn.Pkg.Pkg.Path() != pkg {
+			return false
+		}
+		var arg *ssa.Parameter
+		for _, p := range fn.Params {
+			if bt, ok := p.Type().Underlying().(*types.Basic); ok && bt.Kind() == types.String {
+				arg = p
+			}
+		}
+		if arg == nil {
+			return false
+		}
+		// role: the function (or a predicate literal it hands to a search helper such as slices.IndexFunc) compares an
+		// Import's Alias with its string argument, and it returns a *Import
+		res := fn.Signature.Results()
+		if res.Len() != 1 || !strings.HasSuffix(res.At(0).Type().String(), "templates.Import") {
+			return false
+		}
+		for _, f := range an.WithClosures(fn) {
+			for _, b := range f.Blocks {
+				for _, in := range b.Instrs {
+					bo, ok := in.(*ssa.BinOp)
+					if !ok || bo.Op != token.EQL {
+						continue
+					}
+					for _, pr := range [][2]ssa.Value{{bo.X, bo.Y}, {bo.Y, bo.X}} {
+						fa, isFA := loadAddr(pr[0]).(*ssa.FieldAddr)
+						if isFA && fieldNameOf(fa) == "Alias" && (pr[1] == ssa.Value(arg) || an.SameVar(pr[1], arg)) {
+							return true
+						}
+					}
+				}
+			}
+		}
+		return false
+	}
+	n := 0
+	for _, fn := range c.moduleFuncs(func(p string) bool { return p == pkg }) {
+		for _, b := range fn.Blocks {
+			for _, in := range b.Instrs {
+				st, ok := in.(*ssa.Store)
+				if !ok {
+					continue
+				}
+				fa, ok := st.Addr.(*ssa.FieldAddr)
+				if !ok || fieldNameOf(fa) != "Alias" || !an.NamedIs(fa.X.Type(), pkg, "Import") {
+					continue
+				}
+				n++
+				ok = false
+				for _, f := range an.Facts(st) {
+					empty, k := an.EmptinessFact(f, func(x ssa.Value) bool {
+						call, isC := an.Strip(x).(*ssa.Call)
+						if !isC || !isFinder(call.Call.StaticCallee()) {
+							return false
+						}
+						for _, a := range call.Call.Args {
+							if a == st.Val || an.SameVar(a, st.Val) {
+								return true
+							}
+						}
+						return false
+					})
+					if k && empty {
+						ok = true
+					}
+				}
+				c.R.Check(ok, shortFn(topFn(fn))+"/store:Import.Alias", c.ipos(st), "alias looked up and found free", "an import alias is assigned without having been looked up among the aliases already in use: it can coincide with another import's name or reserved alias, and the generated file declares the same import name twice (does not compile)")
+			}
+		}
+	}
+	if n < 2 {
+		c.R.Fail("alias-unique found only %d stores to Import.Alias", n)
+	}
 }
